@@ -186,7 +186,8 @@ pub fn install_panic_capture() {
             .location()
             .map(|l| {
                 let f = l.file();
-                let f = f.strip_prefix("/repo/").unwrap_or(f);
+                // path relative to the checkout (/repo or a VERIF_REPO worktree): from the crate directory on
+                let f = f.find("/humphrey").map(|i| &f[i + 1..]).unwrap_or(f);
                 format!("{}:{}", f, l.line())
             })
             .unwrap_or_default();
